@@ -9,8 +9,66 @@ const PAGE_SIZE: u64 = 1024;
 const CRC_SIZE: u64 = 4;
 const PAGE_PAYLOAD_SIZE: usize = (PAGE_SIZE - CRC_SIZE) as usize;
 
+/// Wrapper for the underlying writer that remembers if an operation failed.
+///
+/// After a failed operation it is unknown what was written and where the underlying writer
+/// stands. Page buffer and writer are out of sync then, anything written later would end up
+/// at the wrong place. All further operations are refused to make sure that a file
+/// cannot be completed successfully after something went wrong.
+struct Device<T: Write + Read + Seek> {
+    inner: T,
+    failed: bool,
+}
+
+impl<T: Write + Read + Seek> Device<T> {
+    /// Runs an operation of the underlying writer.
+    /// Interrupted operations had no effect and are repeated, all other errors are final.
+    fn run<R>(
+        &mut self,
+        mut operation: impl FnMut(&mut T) -> std::io::Result<R>,
+    ) -> std::io::Result<R> {
+        if self.failed {
+            return Err(std::io::Error::other(
+                "The writer cannot be used after a failed operation",
+            ));
+        }
+        loop {
+            match operation(&mut self.inner) {
+                Err(err) if err.kind() == std::io::ErrorKind::Interrupted => continue,
+                Err(err) => {
+                    self.failed = true;
+                    return Err(err);
+                }
+                Ok(result) => return Ok(result),
+            }
+        }
+    }
+}
+
+impl<T: Write + Read + Seek> Read for Device<T> {
+    fn read(&mut self, buf: &mut [u8]) -> std::io::Result<usize> {
+        self.run(|inner| inner.read(buf))
+    }
+}
+
+impl<T: Write + Read + Seek> Write for Device<T> {
+    fn write(&mut self, buf: &[u8]) -> std::io::Result<usize> {
+        self.run(|inner| inner.write(buf))
+    }
+
+    fn flush(&mut self) -> std::io::Result<()> {
+        self.run(|inner| inner.flush())
+    }
+}
+
+impl<T: Write + Read + Seek> Seek for Device<T> {
+    fn seek(&mut self, pos: SeekFrom) -> std::io::Result<u64> {
+        self.run(|inner| inner.seek(pos))
+    }
+}
+
 pub struct PagedWriter<T: Write + Read + Seek> {
-    writer: T,
+    writer: Device<T>,
     offset: usize,
     page_buffer: [u8; PAGE_SIZE as usize],
 
@@ -28,7 +86,10 @@ impl<T: Write + Read + Seek> PagedWriter<T> {
             Error::invalid("Supplied writer is not empty")?
         }
         Ok(Self {
-            writer,
+            writer: Device {
+                inner: writer,
+                failed: false,
+            },
             offset: 0,
             page_buffer: [0_u8; PAGE_SIZE as usize],
 
@@ -149,7 +210,7 @@ impl<T: Write + Read + Seek> PagedWriter<T> {
 
     /// Verification hook: access to the underlying device.
     pub fn verif_device(&mut self) -> &mut T {
-        &mut self.writer
+        &mut self.writer.inner
     }
 }
 
